@@ -177,6 +177,7 @@ def judge_reused_list(s, docs, cfg, vec):
 
 
 def run(s):
+    K.hostile_callers(s)
     q = s.tier == 'quick'
     cfg = os.environ.get('VERIF_CFG', 'default')
     s.hist['cfg:%s __debug__=%s optimize=%s' % (cfg, __debug__, sys.flags.optimize)] += 1
